@@ -49,7 +49,8 @@ REQUIRED = ["tree_resamplings", "branches_checked", "sample_points_checked", "ze
             "two_node_branches_longer_than_spacing", "exact_multiple_spacings", "root_one_child",
             "non_soma_roots", "instance_reused", "branch_isometric_checked", "integer_coordinate_branches",
             "branch_linear_checked", "branch_smoother_checked", "tree_smoother_checked", "assembler_identity_checked",
-            "tap_assembler", "tap_resample", "rejected_calls_before_resampling"]
+            "tap_assembler", "tap_resample", "rejected_calls_before_resampling",
+            "branch_trees_resampled"]
 FLOOR = {"quick": 850, "thorough": 17000}
 SHARDS = {"quick": 8, "thorough": 16}
 TOL = 1e-4
@@ -220,6 +221,20 @@ def exec_tree(ctx, case):
         ctx.skip("critical nodes not distinct by (position, radius)")
         return
     tree = G.build(spec, with_tag=False)
+    sd_ = int(case["tree"]["seed"])
+    if sd_ % 5 == 1:
+        # a tree the library derived (sorted / re-rooted / grown by a merged node) from a used one
+        tree, spec = G.derive(tree, spec, sd_)
+        if not distinct_critical_keys(spec):
+            return ctx.skip("critical nodes not distinct by (position, radius)")
+    elif sd_ % 5 == 2 and len(spec["pid"]) >= 3:
+        # the library's own reduced form of the neuron (a BranchTree: root, furcations and tips
+        # joined by straight edges) is a tree too: resampling it resamples *those* edges
+        from swcgeom.core import BranchTree
+
+        tree = BranchTree.from_tree(tree)
+        spec = {k: np.array(v, copy=True) for k, v in tree.ndata.items() if k != "id"}
+        ctx.count("branch_trees_resampled")
     pid = spec["pid"]
     ch = topo.children_lists(pid)
     if len(ch[0]) == 1:
